@@ -191,8 +191,32 @@ func c16Run(r *ev.Run, s c16Session, record bool) (msgs []e2e.Msg) {
 					tables = append(tables, t)
 				}
 				sort.Strings(tables)
+				// which transaction does this reply reflect? The server answered under its transaction lock; if a transaction of
+				// the harness is in flight, its snapshot may not be recorded yet although the server has committed it (its
+				// caller was cut off, or is still in the barrier): wait for the record, then take the newest snapshot whose
+				// contents are the ones the server put in the reply
+				var contents ovsdb.TableUpdates2
+				_ = json.Unmarshal(rep.Result[2], &contents)
 				idMu.Lock()
 				cur := hist[len(hist)-1]
+				for try := 0; ; try++ {
+					matched := false
+					for i := len(hist) - 1; i >= 0 && i >= len(hist)-3; i-- {
+						if c16ReplyMatches(ref, contents, hist[i].st, tables) {
+							cur, matched = hist[i], true
+							break
+						}
+					}
+					if matched || !inTxn || try > 4000 {
+						if !matched {
+							cur = hist[len(hist)-1]
+						}
+						break
+					}
+					idMu.Unlock()
+					time.Sleep(500 * time.Microsecond)
+					idMu.Lock()
+				}
 				var known *snap
 				for i := range hist {
 					if hist[i].id == last {
@@ -737,3 +761,40 @@ func runC16(r *ev.Run) {
 
 // c16OutageTimeout: reconnect timeout of the clients of the outage sessions
 const c16OutageTimeout = 120 * time.Millisecond
+
+// c16ReplyMatches: do the initial contents of a monitor reply (every row of the requested tables) equal a recorded state?
+func c16ReplyMatches(ref *rm.Schema, contents ovsdb.TableUpdates2, st *rm.DB, tables []string) bool {
+	for _, t := range tables {
+		tab := ref.Tables[t]
+		if tab == nil {
+			return false
+		}
+		if len(contents[t]) != len(st.T[t]) {
+			return false
+		}
+		for u, ru := range contents[t] {
+			want, ok := st.T[t][u]
+			if !ok || ru == nil || ru.Initial == nil {
+				return false
+			}
+			got, err := sys.FromOvsRow(tab, *ru.Initial)
+			if err != nil {
+				return false
+			}
+			for cn, c := range tab.Cols {
+				g, has := got[cn]
+				if !has {
+					g = c.Default()
+				}
+				w, hasW := want[cn]
+				if !hasW {
+					w = c.Default()
+				}
+				if !g.Equal(w) {
+					return false
+				}
+			}
+		}
+	}
+	return true
+}
